@@ -265,6 +265,22 @@ def c07_scope(res, pid, rng, tier):
                 if m and (m.group(0) in a or any(m.group(0) in x for _, x in g1[i])):
                     fails.append({"kind": "the secret survives in the output or in an INFO+ log record", "salt": cfg.salt,
                                   "line": lines1[i], "output": a, "logs": g1[i]})
+    # white space other than blank and tab between the keyword and the secret
+    sepl = []
+    for sp_ in ("\x0c", "\x0b", "\x1c", "\x1e", "\x85", "\xa0", "\u2028", " \x0c ", "\t\x0b"):
+        s_ = "Hq" + "".join(rng.choice("ghjkmnpqrstvwxz") for _ in range(9)) + "7"
+        for f_ in ("username bob password%s%s", "snmp-server community%s%s RO", "enable secret%s%s"):
+            sepl.append((f_ % (sp_, s_), s_))
+    try:
+        outs_s, logs_s = run_lines(fa.FaCfg(salt=SALTS[res.seed % len(SALTS)], pwd=True), [x[0] + "\n" for x in sepl])
+    except Exception as e:  # noqa
+        fails.append({"kind": "anonymize_io raised on a recognised line form", "exc": repr(e)})
+        outs_s, logs_s = [], []
+    for (ln, s_), out, lg in zip(sepl, outs_s, logs_s):
+        res.evaluations += 1
+        if s_ in out or any(s_ in m for _, m in lg):
+            fails.append({"kind": "the secret survives in the output or in an INFO+ log record (white space other than blank / tab before it)",
+                          "line": ln, "output": out})
     # communities that merely start with a well-known BGP community name; reserved words of an EARLIER anonymizer
     fa.FaCfg(salt="s", pwd=True, reserved=["Tr0ub4dor-3x", "hunter2x"]).build()
     probes = [("set community %s" % s_, s_) for s_ in ("none-Zk81qPw", "internet.4hGq7", "no-export/s3cr3t", "gshut!x9Y2", "local-AS#k3y", "none.x")]
@@ -404,10 +420,14 @@ def c08_dir_scope(res, pid, rng, tier):
         try:
             ind, outd = os.path.join(d, "in"), os.path.join(d, "out")
             parts = {"a.cfg": (0, 10), "m/c.cfg": (10, 20), "z.cfg": (20, 30)}
+            cr_file = "z.cfg" if r % 2 == 0 else "m/c.cfg"          # one file uses bare carriage returns as line terminators
             for rel, (a, b) in parts.items():
                 os.makedirs(os.path.dirname(os.path.join(ind, rel)), exist_ok=True)
-                open(os.path.join(ind, rel), "w").write("".join(lines[a:b]))
+                body_ = "".join(lines[a:b])
+                open(os.path.join(ind, rel), "w", newline="").write(body_.replace("\n", "\r") if rel == cr_file else body_)
             open(os.path.join(ind, "b-bad.bin"), "wb").write(b"\xff\xfe\x00 \xc3\x28 not text")
+            # a file in another encoding: two secrets that differ only in bytes that are not valid UTF-8
+            open(os.path.join(ind, "c-latin1.cfg"), "wb").write(b"username a password p\xe4ssw0rdQ\nusername b password p\xdfssw0rdQ\n")
             os.makedirs(os.path.join(ind, "m", "k-dir.cfg"), exist_ok=True)
             os.makedirs(os.path.join(outd, "m", "f-occupied.cfg"))
             open(os.path.join(ind, "m", "f-occupied.cfg"), "w").write("password blockedsecret1\n")
@@ -418,11 +438,18 @@ def c08_dir_scope(res, pid, rng, tier):
                 for f in fs:
                     order.append(os.path.relpath(os.path.join(root_, f), ind))
             seen, used = {}, {}
+            lp = os.path.join(outd, "c-latin1.cfg")
+            if os.path.isfile(lp):
+                reps_ = [ln_.split()[-1] for ln_ in open(lp, "rb").read().decode("utf-8", "replace").splitlines() if ln_.strip()]
+                res.evaluations += 1
+                if len(reps_) == 2 and reps_[0] == reps_[1]:
+                    fails.append({"kind": "different secrets received the same replacement within one run (file that is not valid UTF-8)",
+                                  "file_bytes": "username a password p\\xe4ssw0rdQ / username b password p\\xdfssw0rdQ", "replacements": reps_})
             for rel in order:
                 if rel not in parts or not os.path.isfile(os.path.join(outd, rel)):
                     continue
                 a, b = parts[rel]
-                outs = open(os.path.join(outd, rel)).read().split("\n")
+                outs = open(os.path.join(outd, rel), newline="").read().replace("\r", "\n").split("\n")
                 for (t, w, s, c), out in zip(hist[a:b], outs):
                     res.evaluations += 1
                     rep = extract(out + "\n", t, w)
